@@ -35,6 +35,13 @@ var c13ViewHeaders = map[string]any{
 	// a pipeline header whose value is empty for most requests: it is handed over (empty) all the same, so that a
 	// value sent by the client under that name never counts
 	"X-Out-Opt": `{{ if eq (.Request.Header "X-Role") "admin" }}admin-group{{ end }}`,
+	// a pipeline header named like one the proxy itself produces for the upstream side: the pipeline's value is the one handed over
+	"Forwarded": `for=192.0.2.1;host=pipeline.{{ .Subject.ID }}.example`,
+}
+
+// c13IsOut tells whether a (canonical) header name belongs to the pipeline output for the upstream side
+func c13IsOut(ck string) bool {
+	return strings.HasPrefix(ck, "X-View-") || strings.HasPrefix(ck, "X-Out-") || ck == "Forwarded"
 }
 
 func c13Rules(up string) []*rconfig.RuleSet {
@@ -96,7 +103,7 @@ func (t *trio) c13Send(ep string, lr lreq) c13View {
 	take := func(h map[string][]string) {
 		for k, vals := range h {
 			ck := http.CanonicalHeaderKey(k)
-			if strings.HasPrefix(ck, "X-View-") || strings.HasPrefix(ck, "X-Out-") {
+			if c13IsOut(ck) {
 				v.Headers[ck] = strings.Join(vals, "\x1f")
 			}
 		}
@@ -130,7 +137,7 @@ func (t *trio) c13Send(ep string, lr lreq) c13View {
 		// that is NOT in the answer is not touched there, so what the client sent under that name reaches the upstream
 		for name, val := range lr.Headers {
 			ck := http.CanonicalHeaderKey(name)
-			if strings.HasPrefix(ck, "X-View-") || strings.HasPrefix(ck, "X-Out-") {
+			if c13IsOut(ck) {
 				if _, ok := v.Headers[ck]; !ok {
 					v.Headers[ck] = "client-value-passes:" + val
 				}
@@ -173,7 +180,9 @@ func c13Request(rng *rand.Rand) lreq {
 	lr.Host = []string{"svc.test", "api.example.com:8443", "10.1.2.3", "App.Example.COM", "SVC.test:80"}[rng.IntN(5)]
 	lr.Query = []string{"", "q=1", "q=1&multi=a&multi=b", "q=a%20b&x=%2F", "multi=z&q=1&q=2", "flag",
 		// separators and characters a query parser may treat specially
-		"q=1;multi=a", "multi=a;b&q=2", "q=a+b&multi=%2B", "q=%zz&multi=a", "q==1&&multi=&=x"}[rng.IntN(11)]
+		"q=1;multi=a", "multi=a;b&q=2", "q=a+b&multi=%2B", "q=%zz&multi=a", "q==1&&multi=&=x",
+		// "?" and "/" are plain characters within a query (RFC 3986 3.4): the query starts at the first "?" of the target
+		"q=/files/report?id=7", "q=who?&multi=a", "multi=a/b?c&q=1?", "?q=1", "q=1&multi=http://x/y?z=1"}[rng.IntN(16)]
 	if rng.IntN(2) == 0 {
 		lr.Headers["X-Custom"] = []string{"cv", "with space", "a,b", "üni"}[rng.IntN(4)]
 	}
@@ -368,7 +377,7 @@ func c13Signature(d string, lr lreq) string {
 		return "status-differs"
 	case strings.HasPrefix(d, "cookies:"):
 		return "upstream-cookies-differ"
-	case strings.HasPrefix(name, "X-Out-"):
+	case strings.HasPrefix(name, "X-Out-"), name == "Forwarded":
 		return "upstream-header-differs:" + name
 	}
 	return "request-view-differs:" + name
